@@ -269,3 +269,22 @@ MORE = {
 }
 for _p, _l in MORE.items():
     PROPS[_p]["extra_theorems"] = PROPS[_p].get("extra_theorems", []) + _l
+
+# ---- level texts / partial labels after the sixth round -------------------------------------------
+PROPS["C06"]["partial"] = []
+PROPS["C06"]["level_text"] += " History (EdsProps/C06b): C06_restart_timeline / _first_fixed / _latest (over ANY run of syncs of one replica set the PodRestarting condition's transition time is the first and its update time the latest restart a sync recorded), C06_failed_sticky_history, C06_restart_span_monotone (with the counterexample for a stored False condition proved)."
+PROPS["C04"]["partial"] = []
+PROPS["C04"]["level_text"] += " History (EdsProps/L3 over the cluster machine EdsModel/Cluster.lean): L3_canary_bound (along any run the controller never grows status.canary.nodes beyond max(previous length, resolved request)), L3_role_unique (at most one active and one canary replica set), by induction over arbitrary operation sequences."
+PROPS["C02"]["partial"] = ["the composition with the ExtendedDaemonSet controller through canary promotion / rollback at L3, real kubelet timing and ExtendedDaemonsetSettings are not in C02_converges_store (scenario-level evidence: scenario, scenario_histories, scenario_faults_rollback)"]
+PROPS["C02"]["level_text"] = PROPS["C02"]["level_text"].replace("Partial. Proved", "Proved") + " STORE LEVEL (EdsProps/C02c): C02c_refines (the real sync reconcileErs -- time gates, slow-start cap at the current clock, filterAndMap, pod construction/comparison -- followed by the API server and an instantaneous kubelet preserves the cooperative-store predicate and moves the counters exactly as the abstract round) and C02_converges_store (from ANY cooperative store, within 2*outdated + empty rounds every eligible node runs exactly one Ready pod of the replica set's template, no other daemon pod exists, and any further sync writes nothing), C02c_fixpoint; uniqueness of the fixpoint C11_fixpoint_unique (EdsProps/C11b)."
+PROPS["C11"]["partial"] = ["reaching the fixpoint after a fault is proved at store level without a canary (C02_converges_store) and otherwise checked on the corpus x fault index x kind"]
+PROPS["C11"]["level_text"] += " L3 (EdsProps/L3): every history invariant (one replica set per template, canary list, promotion rule, foreign pods untouched) holds along runs in which ANY subset of each reconcile's planned writes is applied (stepF / runF); C11_fixpoint_unique: two quiescent stores over the same nodes and spec have the same (node, template) assignment and the same status counters."
+PROPS["C09"]["level_text"] += " C09_spacing_history (EdsProps/C09c): over any run of syncs of one replica set with the status carried forward, any two write-issuing syncs are at least reconcileFrequency apart; through a second-truncating store the spacing is > freq - 1 s (tight)."
+PROPS["C13"]["level_text"] += " L3 history (EdsProps/L3): L3_one_per_template, L3_names_nodup, L3_never_deletes_in_use by induction over arbitrary operation sequences of the cluster machine."
+PROPS["C05"]["level_text"] += " L3_promotion_history: in any run of the cluster machine, whenever a reconcile switches status.activeReplicaSet from an existing own replica set to another, the promotion rule held in the pre-state. Code level (EdsProps/C05s): C05_src_only_if etc. about the TRANSLATED selectCurrentReplicaSet."
+PROPS["C01"]["level_text"] += " L3_one_per_node: at most one live daemon pod per node along runs of BOTH controllers with the ExtendedDaemonSet object evolving."
+PROPS["C12"]["level_text"] += " L3_foreign_pods_untouched: along any run (with or without dropped writes) no op but the kubelet changes a pod the ExtendedDaemonSet does not own."
+for _p in PROPS:
+    PROPS[_p].setdefault("trusted_base", [])
+for _p in ("C01", "C02", "C04", "C05", "C11", "C12", "C13", "C15"):
+    PROPS[_p]["trusted_base"] = PROPS[_p]["trusted_base"] + ["EdsModel/Cluster.lean (L3): the API server's effect of each write (apply functions) is modelled by hand and validated by the transition check of every scenario run (predicted world = world the next reconcile read)"]
